@@ -28,6 +28,8 @@ type jsonCase struct {
 	// the name of column 0 / the non-null string cells of column 0 (joined by 00ff00 separators are not used; one per cell)
 	NameHex string   `json:"name_hex,omitempty"`
 	StrHex  []string `json:"str_hex,omitempty"`
+	// ConstEnum: the frame is {s: ConstString(StrHex[0]) x 2 as a derived enum, id: 0,1} built directly with New
+	ConstEnum bool `json:"const_enum,omitempty"`
 }
 
 func hexOf(s string) string { return fmt.Sprintf("%x", s) }
@@ -87,6 +89,14 @@ func (c jsonCase) frame() model.Frame {
 func runJSONCase(c jsonCase) *core.Failure {
 	f := c.frame()
 	qf := model.BuildShape(f, c.Shape)
+	if c.ConstEnum {
+		v := unhex(c.StrHex[0])
+		f = model.Frame{N: 2, Cols: []model.Col{
+			{Name: "s", Kind: model.Enum, Cells: []model.Cell{model.S(v), model.S(v)}},
+			{Name: "id", Kind: model.Int, Cells: []model.Cell{model.I(0), model.I(1)}}}}
+		qf = qframe.New(map[string]interface{}{"s": qframe.ConstString{Val: &v, Count: 2}, "id": []int{0, 1}},
+			newqf.Enums(map[string][]string{"s": nil}), newqf.ColumnOrder("s", "id"))
+	}
 	in := model.ObserveAs(qf, f)
 	if in.Err {
 		return core.Failf("could not build frame: %s", in.ErrText)
@@ -274,6 +284,16 @@ func c14Run(ctx *core.Ctx) {
 		}
 		f := model.Frame{N: 2, Cols: []model.Col{{Name: "n", Kind: model.Int, Cells: []model.Cell{model.I(1), model.I(2)}}, {Name: "z", Kind: model.Bool, Cells: []model.Cell{model.B(true), model.B(false)}}}}
 		exec(jsonCase{Frame: f, Shape: 0, NameHex: hexOf(s)}, "long-names")
+	}
+	// enum columns made from a constant (ConstString + Enums): the value enters the enum by another door
+	constVals := append([]string{}, byteStrings...)
+	for i := 0; i < 256*18; i += 7 {
+		constVals = append(constVals, longStrings[i])
+	}
+	for _, s := range constVals {
+		if ctx.Mine() {
+			exec(jsonCase{Frame: strFrame(model.Enum, 2), StrHex: []string{hexOf(s)}, ConstEnum: true}, "const-enum")
+		}
 	}
 	// names
 	for _, s := range byteStrings {
